@@ -498,6 +498,30 @@ func genC05(c *Ctx) {
 			l = 3000 + r.Intn(20000)
 		}
 		focus := mk(l, uint8(r.Intn(2)))
+		if i%5 == 0 {
+			// the focus blob built from views of ONE message buffer (namespace || signer || data, spare capacity
+			// behind): committing twice, and committing an identical blob held in other memory, must agree and must
+			// leave the buffer alone
+			msg := make([]byte, 0, len(focus.ns)+len(focus.signer)+len(focus.data)+1024)
+			msg = append(append(append(msg, focus.ns...), focus.signer...), focus.data...)
+			snap := append([]byte{}, msg...)
+			nsv, err := share.NewNamespaceFromBytes(msg[:29])
+			var sg []byte
+			if focus.signer != nil {
+				sg = msg[29 : 29+len(focus.signer)]
+			}
+			if err == nil {
+				if vb, err := share.NewBlob(nsv, msg[29+len(focus.signer):], focus.ver, sg); err == nil {
+					wv := map[string]any{"version": int(focus.ver), "data_len": len(focus.data), "threshold": thr}
+					c1, e1 := inclusion.CreateCommitment(vb, rfc6962Root, thr)
+					c2, e2 := inclusion.CreateCommitment(vb, rfc6962Root, thr)
+					c3, e3 := inclusion.CreateCommitment(focus.blob(), rfc6962Root, thr)
+					c.check(e1 == nil && e2 == nil && e3 == nil && bytes.Equal(c1, c2) && bytes.Equal(c1, c3), "CreateCommitment", "differs between two calls or between identical blobs held in different memory", wv)
+					c.check(bytes.Equal(msg, snap), "CreateCommitment", "modified the buffer the blob's fields are views of", wv)
+					c.count("commit_on_views")
+				}
+			}
+		}
 		var commitments [][]byte
 		var where []string
 		placements3 := 2 + r.Intn(2)
